@@ -37,6 +37,7 @@ type gGenCfg struct {
 	busy       string
 	hold       bool
 	hr         string // host rewrite rule <rep|app>:<pinned local|->:<iface|->:<ext+ext+...>
+	tc         string // per TURN URL: c / u (empty username) / p (empty password); "" = all with credentials
 	cg         bool   // continual gathering
 	mi         int    // monitor interval (ms), 0 = default
 	ifaces     string
@@ -57,6 +58,9 @@ func (c gGenCfg) String() string {
 	}
 	out := fmt.Sprintf("ct=%s,nt=%s,pmin=%d,pmax=%d,rif=%s,rip=%s,lo=%s,md=%s,um=%s,tm=%s,sm=%s,su=%d,tu=%d,tf=%d,rr=%s,sr=%s,busy=%s,hold=%s,hr=%s",
 		c.ct, d(c.nt), c.pmin, c.pmax, d(c.rif), d(c.rip), b(c.lo), b(c.md), d(c.um), d(c.tm), d(c.sm), c.su, c.tu, c.tf, d(c.rr), d(c.sr), d(c.busy), b(c.hold), d(c.hr))
+	if c.tc != "" {
+		out += ",tc=" + c.tc
+	}
 	if c.cg {
 		out += fmt.Sprintf(",cg=1,mi=%d", c.mi)
 	}
@@ -293,6 +297,12 @@ func gRandCfg(r *vRand) gGenCfg {
 	}
 	if hasS && r.chance(1, 4) {
 		c.sm = muxPool[r.intn(2)]
+	}
+	if c.tu > 0 && r.chance(1, 4) {
+		// TURN URLs without username / password: the relay gatherer stops at the first one (srflx gathering does not care)
+		for k := 0; k < c.tu; k++ {
+			c.tc += string("ccup"[r.intn(4)])
+		}
 	}
 	if hasR {
 		if r.chance(1, 6) {
@@ -800,7 +810,50 @@ func gContinual(emit func(op string) string) {
 	}
 }
 
+// gTurnCreds: TURN URLs with credentials / with an empty username / with an empty password, every list of length 1..3 in
+// every order. `gatherCandidatesRelay` stops at the first URL without credentials; the allocations it has already
+// started are slower than its loop (they wait for `turnreply`), and the cycle must not complete before they are over:
+// their candidates come before the nil candidate.
+func gTurnCreds(emit func(op string) string) {
+	var lists []string
+	for _, a := range "cup" {
+		lists = append(lists, string(a))
+		for _, b := range "cup" {
+			lists = append(lists, string(a)+string(b))
+			for _, d := range "cup" {
+				lists = append(lists, string(a)+string(b)+string(d))
+			}
+		}
+	}
+	for _, tc := range lists {
+		for _, c := range []gGenCfg{
+			{ct: "r", nt: "u4", tu: len(tc), tc: tc, ifaces: gIfaceTables[0]},
+			{ct: "hsr", nt: "", su: 1, tu: len(tc), tc: tc, ifaces: gIfaceTables[1]},
+		} {
+			emit("gather new " + c.String() + " " + c.ifaces)
+			for _, op := range []string{"gather", "stunreply 0 1", "turnreply 0 ok1", "stunreply 0 2", "turnreply 0 ok2", "stunreply 0 1",
+				"stunreply 0 3", "turnreply 0 fail", "adv 8000", "restart", "gather", "turnreply 0 ok1", "close", "end"} {
+				emit("gather " + op)
+			}
+		}
+	}
+	// the same with filters (one allocation per accepted local address) and with a cycle that is cancelled first
+	for _, tc := range []string{"cu", "cp", "ccu", "cpc"} {
+		c := gGenCfg{ct: "r", nt: "u4", tu: len(tc), tc: tc, rif: "n", ifaces: gIfaceTables[4]}
+		emit("gather new " + c.String() + " " + c.ifaces)
+		for _, op := range []string{"gather", "turnreply 1 ok1", "turnreply 0 ok2", "restart", "gather", "restart", "turnreply 0 ok1", "gather2",
+			"adv 8000", "end"} {
+			emit("gather " + op)
+		}
+	}
+}
+
 func gGen(o *vOut, r *vRand, thorough bool, args []string, emit func(op string) string) {
+	if len(args) > 0 && args[0] == "turncreds" {
+		// the relay-credentials block alone (component of check C11: one nil candidate, after all candidates of its cycle)
+		gTurnCreds(emit)
+		return
+	}
 	// 1. boundary configurations: every network-type subset x host, on two interface tables
 	for _, nt := range gNetSubsets {
 		for _, tbl := range []string{gIfaceTables[1], gIfaceTables[3]} {
@@ -959,6 +1012,8 @@ func gGen(o *vOut, r *vRand, thorough bool, args []string, emit func(op string) 
 	} else {
 		emit("gather stress 2500")
 	}
+	// 4b'. TURN URLs without credentials
+	gTurnCreds(emit)
 	// 4c. continual gathering (GatherContinually + monitor interval): the interface table changes during the session
 	gContinual(emit)
 	// 5. random configuration product x random scripts
